@@ -115,7 +115,12 @@ def check(ck):
                     "user_agent": K("configured-agent")})
             ev = shape.Evaluator(prog, "jsonrpc", lenient=True, stubs={"utils.to_bytes": lambda *a, **k: a[0]})
             res = ev.run(fsend, {"connection": conn, "request_body": K(b'{"a": 1}')}, mk)
-            calls = [c for c in getattr(ev, "opaque_calls", []) if c[0] == "connection" and c[1] == "putheader"]
+            # undecided tests (a logger's isEnabledFor ...) fork the evaluation: every outcome must emit the same headers
+            per_run = [[c for c in cl_ if c[0] == "connection" and c[1] == "putheader"] for cl_ in getattr(ev, "calls_per_result", [])]
+            forked_same = len(res) > 1 and all(r_[1][0] == "return" for r_ in res) and all(repr(x) == repr(per_run[0]) for x in per_run[1:])
+            if forked_same:
+                res = res[:1]
+            calls = per_run[0] if per_run else []
             emitted = []
             for c in calls:
                 a = c[2]
